@@ -129,6 +129,23 @@ class Bench:
         self.processed = re.findall(r'^Processing (.+)$', buf.getvalue(), re.M)
         return res
 
+    def run_parallel(self, kinds, process_count, timeout=600):
+        """An uninterrupted resume with several workers, in a FRESH interpreter (parse_folder forks its pool; forking from the
+        check's own process - threads of the executor, torch already initialised - can deadlock the children)."""
+        import subprocess
+        argv = [sys.executable, os.path.join(common.REPO, 'user_scripts', 'parse_folder.py'), '-c', self.cfg, '-i', os.path.join(self.root, 'img'),
+                '-x', os.path.join(self.root, 'xml'), '--device', 'cpu', '-s', '--process-count', str(process_count)]
+        for k in kinds:
+            argv += [FLAG[k], self.outdir(k)]
+        env = dict(os.environ, PYTHONPATH=common.REPO + os.pathsep + os.environ.get('PYTHONPATH', ''))
+        try:
+            p = subprocess.run(argv, stdout=subprocess.PIPE, stderr=subprocess.STDOUT, text=True, timeout=timeout, env=env)
+        except subprocess.TimeoutExpired:
+            self.processed = []
+            return 'timeout'
+        self.processed = re.findall(r'^Processing (.+)$', p.stdout, re.M)
+        return 'ok' if p.returncode == 0 else 'exit:%s' % p.returncode
+
     def listing(self, kinds):
         out = {}
         for k in kinds:
@@ -351,6 +368,7 @@ def run(ctx):
                 ctx.hist = getattr(ctx, 'hist', [])
                 ctx.hist.append((kinds, hist, [t[1] for t in trace], lst))
     parallel_resume(ctx)
+    empty_page_resume(ctx)
     correspond(ctx)
 
 
@@ -367,7 +385,7 @@ def parallel_resume(ctx):
             ctx.notes.append('parallel resume: the model-free reference run ended with %s; skipped' % r)
             return
         ref_list, ref_cont, nwrites = b.listing(kinds), b.contents(kinds), b.inj.count
-        for it in range(4 if ctx.quick() else 14):
+        for it in range(4 if ctx.quick() else 6):
             b.clean()
             k = rng.randrange(max(1, nwrites // 3), nwrites + 1)      # mostly late crashes: few pages are left
             n = rng.choice([2, 3, 4, 6])
@@ -377,7 +395,7 @@ def parallel_resume(ctx):
             if res not in ('killed', 'ok'):
                 ctx.violation('crashed-run:%s' % res, 'interrupted run ended with %s' % res, inp)
                 continue
-            res = b.run(kinds, skip=True, process_count=n)
+            res = b.run_parallel(kinds, n)
             if res != 'ok':
                 ctx.violation('parallel-resume:%s' % res, 'resume with --process-count %d ended with %s' % (n, res), inp)
                 continue
@@ -392,6 +410,46 @@ def parallel_resume(ctx):
                     ctx.violation('content-differs:process-count', 'outputs of a resume with several workers differ from those of an uninterrupted run', inp, diff[:5])
             ctx.nontriv(inp)
             ctx.count('parallel_resumes')
+
+
+def empty_page_resume(ctx):
+    """A batch that contains a sheet WITHOUT text lines: its outputs count like any other page's (complete => not processed again,
+    a run with nothing left to do processes nothing, crashes anywhere are repaired by a resume)."""
+    rng = ctx.rng
+    pages = ['p1', 'empty0', 'z2']
+    with Bench(ctx, pages=pages) as b:
+        for kinds in ([KINDS, ['xml', 'logits'], ['logits', 'alto']] if ctx.quick() else [KINDS, ['xml', 'logits'], ['logits'], ['logits', 'alto'], ['xml', 'render', 'alto']]):
+            b.clean()
+            r = b.run(kinds, skip=False)
+            inp0 = dict(kinds=kinds, pages=pages, page_without_lines='empty0')
+            ctx.evaluations += 1
+            if r != 'ok':
+                ctx.violation('uninterrupted-fails:empty-page', 'uninterrupted run over a batch with an empty sheet ended with %s' % r, inp0)
+                continue
+            ref_list, ref_cont, nwrites = b.listing(kinds), b.contents(kinds), b.inj.count
+            r2 = b.run(kinds, skip=True)
+            if r2 != 'ok':
+                ctx.violation('nothing-to-do:%s' % r2, 'a run that finds nothing left to do does not exit cleanly (%s)' % r2, inp0)
+            if b.processed and not (set(kinds) <= {'alto', 'lines'}):
+                ctx.violation('complete-reprocessed:empty-page', 'pages whose outputs are all complete are processed again (batch with a sheet without text lines)',
+                              inp0, b.processed)
+            for k in (rng.sample(range(1, nwrites + 1), min(4, nwrites)) if ctx.quick() else range(1, nwrites + 1)):
+                b.clean()
+                ctx.evaluations += 1
+                inp = dict(inp0, crash_before_write=[k])
+                res = b.run(kinds, skip=True, kill_at=k)
+                res = b.run(kinds, skip=True)
+                if res != 'ok':
+                    ctx.violation('final-run:%s' % res, 'final uninterrupted resume ended with %s' % res, inp)
+                    continue
+                lst = b.listing(kinds)
+                if lst != ref_list:
+                    missing = {kk: sorted(set(ref_list[kk]) - set(lst[kk])) for kk in kinds if set(ref_list[kk]) - set(lst[kk])}
+                    ctx.violation('incomplete-after-resume:empty-page', 'after resuming, requested outputs are missing (batch with a sheet without text lines)', inp, missing)
+                elif any(b.contents(kinds).get(kk) != v for kk, v in ref_cont.items()):
+                    ctx.violation('content-differs:empty-page', 'outputs differ from those of an uninterrupted run', inp)
+                ctx.nontriv(inp)
+            ctx.count('empty_page_configs')
 
 
 def correspond(ctx):
